@@ -240,11 +240,21 @@ pub struct WorldCfg {
     pub listing: Option<Vec<(String, String)>>,
 }
 
+/// The greeting of a simulated server: half of the worlds announce 0.23.5, the others an old, a new or an
+/// oddly shaped version (nothing the client does afterwards may depend on it: every command the harness
+/// uses is answered by the simulated server whatever it announced).
+pub fn greeting_for(seed: u64) -> Vec<u8> {
+    const V: &[&str] = &["0.19.0", "0.20.23", "0.21.0", "0.21.26", "0.16.0", "0.24.2", "1.0.0", "0.9", "0.23~git", "0.22.x", "10.1", "0", "0.15", "0.20", "2"];
+    let h = crate::util::rng::mix(&[seed, 0x6772_6565]);
+    let v = if h % 2 == 0 { "0.23.5" } else { V[((h >> 8) % V.len() as u64) as usize] };
+    format!("OK MPD {}\n", v).into_bytes()
+}
+
 impl WorldCfg {
     pub fn plain(seed: u64) -> WorldCfg {
         WorldCfg {
             seed,
-            greeting: b"OK MPD 0.23.5\n".to_vec(),
+            greeting: greeting_for(seed),
             read_cap: usize::MAX,
             pending_p: 0,
             write_cap: usize::MAX,
